@@ -32,7 +32,7 @@ PROPS = {
         level_text="Static necessary-condition check: every rule instance (obligation) is enumerated from /repo's AST on each run and compared with fact tables derived from CPython's own headers, opcode tables and compiler output for 3.9-3.12. "
                    "It decides the version-soundness, layout-agreement and convention clauses of the property for all four interpreters at once (the suite runs on one), not the behavioural exactness of the pattern matcher.",
         level_note="Trusted: CPython headers/opcode tables/compile() output of the four interpreters in the sandbox; the svx checker itself (self-tested on seeded variants in the thorough tier).",
-        technique="static analysis: partial evaluation over the supported-version set + reader/writer table agreement (ctypes layout vs C headers, prologue constants vs compiler output)",
+        technique="static analysis: partial evaluation over the supported-version set + reader/writer table agreement (ctypes layout vs C headers, prologue constants vs compiler output); truth tables of the 3.9/3.10 block walk; abstract evaluation of source fragments by a purpose-built evaluator (engine MINI: symbolic / opaque operands, nothing of /repo imported or run) against interpreter facts (compiled with-statement layouts, code-object shapes, EXCEPT_HANDLER block contents)",
         design_ref="DESIGN.md section 4, C01",
     ),
     "C02": S(
@@ -48,7 +48,7 @@ PROPS = {
                    "Found F1 (running __aexit__ on 3.12), repaired in /repo; reports it again if it returns.  States F2 (exit call of a with-body that ends in a compound statement is not resolved on 3.11 / 3.12) "
                    "as nine open known findings (OPC-15: the function evaluated on 104 compiled exit sites); any other shape that stops resolving is a violation.",
         level_note="Necessary conditions only; inline-cache-entry counts come from each interpreter's opcode module.",
-        technique="static analysis: CFG must-dataflow (typestate RAW/NORM of the instruction offset) + sibling agreement",
+        technique="static analysis: CFG must-dataflow (typestate RAW/NORM of the instruction offset) + sibling agreement + truth tables (block walk, async position); abstract evaluation of source fragments by a purpose-built evaluator (engine MINI: symbolic / opaque operands, nothing of /repo imported or run) against interpreter facts: currently_exiting_context evaluated on 104 compiled exit sites (3.11/3.12) and on 108 exit sites observed by running sample shapes under 3.9/3.10",
         design_ref="DESIGN.md section 4, C02",
     ),
     "C05": S(
@@ -77,7 +77,7 @@ PROPS = {
         assumptions=BASE_ASSUME + FACT_ASSUME + ["the generated target grammar (names, attributes, constant/name subscripts, positional calls, (starred) tuple/list unpacking, nesting <= 2) covers the documented always-rendered set"],
         level_text="Static exhaustiveness check of a hand-written decoder against fact tables of compiler output for each supported interpreter. Found N1 (PUSH_NULL unhandled on 3.11/3.12), repaired in /repo.",
         level_note="Compiler facts come from compile()+dis on each interpreter (nothing executed, no stackscope code involved).",
-        technique="static analysis: exhaustiveness (handled-opcode set vs compiler-emitted set per version) + constant folding of prologue arithmetic",
+        technique="static analysis: exhaustiveness (handled-opcode set vs compiler-emitted set per version) + constant folding of prologue arithmetic; abstract evaluation of source fragments by a purpose-built evaluator (engine MINI: symbolic / opaque operands, nothing of /repo imported or run) against interpreter facts (per-opcode stack effect of the decoder, prologue length for every compiled with-statement layout)",
         design_ref="DESIGN.md section 4, C08",
     ),
     "C10": S(
@@ -129,7 +129,7 @@ PROPS = {
         assumptions=BASE_ASSUME,
         level_text="Static scoping-discipline check: given the semantics of threading.local, with and try/finally, these rules imply the property (per-thread, well-nested, exception-safe option scoping).",
         level_note="The strongest fit of the list: the property is a scoping discipline visible in the code.",
-        technique="static analysis: class-hierarchy fact, save/restore pairing on the CFG, single-writer (who-may-write) rule, argument forwarding, truth tables",
+        technique="static analysis: class-hierarchy fact, save/restore pairing decided by evaluating push over opaque values (engine MINI) with a CFG-shape fallback, single-writer (who-may-write) rule, argument forwarding, truth tables",
         design_ref="DESIGN.md section 4, C13",
     ),
     "C16": S(
@@ -142,7 +142,7 @@ PROPS = {
         assumptions=BASE_ASSUME,
         level_text="Static check of three structural clauses; the recovery contract itself is a run-time statement and is not claimed.",
         level_note="Thin: necessary conditions only.",
-        technique="static analysis: shared-iterator agreement, all-paths-raise evaluation by error count, dominating filter before the only constructor call",
+        technique="static analysis: shared-iterator agreement, all-paths-raise evaluation by error count, dominating filter before the only constructor call, decision table of better_origin over abstract object kinds (engine MINI)",
         design_ref="DESIGN.md section 4, C16",
     ),
     "C06": S(
@@ -172,7 +172,7 @@ PROPS = {
         assumptions=BASE_ASSUME + FACT_ASSUME,
         level_text="Static protocol check on the function's CFG (recheck-around-raw-read discipline, retry/reject structure) plus a truth-table check of the liveness guard. Decides that the protocol is followed at every raw read, not that it is sufficient under all schedules.",
         level_note="Schedules are not explored; the hook points suggested by the property are not needed because nothing is executed.",
-        technique="static analysis: all-paths-pass-through on the CFG between raw reads, re-checks and acceptance; truth table of the liveness guard",
+        technique="static analysis: all-paths-pass-through on the CFG between raw reads, re-checks and acceptance; bounded-read and running/suspended consistency rules for both ctypes readers; truth table of the liveness guard; slot-count formulas evaluated on observed code-object shapes (engine MINI)",
         design_ref="DESIGN.md section 4, C07",
     ),
     "C04": S(
@@ -198,7 +198,7 @@ PROPS = {
         assumptions=BASE_ASSUME + FACT_ASSUME,
         level_text="Static reader/writer agreement between stackscope's exit-stack glue and contextlib's source on four interpreters, plus polarity/order/guard rules. Necessary conditions.",
         level_note="contextlib facts are extracted from each interpreter's contextlib.py by ast.",
-        technique="static analysis: classification table vs contextlib.py of 4 versions, polarity and ordering rules",
+        technique="static analysis: classification table vs contextlib.py of 4 versions, polarity and ordering rules; exit-site resolution evaluated on compiled / observed exit sites (engine MINI, shared with C02)",
         design_ref="DESIGN.md section 4, C09",
     ),
     "C18": S(
